@@ -211,7 +211,8 @@ def thread_try(f, max_chain=14):
         t = b["term"]
         known = None
         if t["k"] == "call" and _fn_path(t).endswith("FromResidual::from_residual") and _is_local(t.get("dest")) and isinstance(t.get("t"), int):
-            known = (t["dest"]["l"], "Break")
+            dty_ = f["locals"][t["dest"]["l"]]["ty"] if t["dest"]["l"] < len(f["locals"]) else ""
+            known = (t["dest"]["l"], "Break", "Err" if "Result<" in dty_[:40] else ("None" if "Option<" in dty_[:40] else None))
         elif t["k"] == "goto":
             for st in b["stmts"]:
                 if st["k"] != "assign" or not isinstance(st.get("lhs"), dict):
@@ -219,7 +220,7 @@ def thread_try(f, max_chain=14):
                 if _is_local(st["lhs"]) and st["rv"]["k"] == "aggr" and st["rv"].get("ak") == "adt" and \
                         st["rv"].get("adt") in ("std::result::Result", "core::result::Result", "std::option::Option", "core::option::Option") and \
                         st["rv"].get("variant") in ("Ok", "Some", "Err", "None"):
-                    known = (st["lhs"]["l"], "Continue" if st["rv"]["variant"] in ("Ok", "Some") else "Break")
+                    known = (st["lhs"]["l"], "Continue" if st["rv"]["variant"] in ("Ok", "Some") else "Break", st["rv"]["variant"])
                 elif known is not None and st["lhs"].get("l") == known[0]:
                     known = None
         if known is None:
@@ -250,6 +251,23 @@ def thread_try(f, max_chain=14):
             if not ok:
                 break
             ct = cb["term"]
+            if ct["k"] == "switch" and known[2] is not None:
+                # `match v { Some(..) => .., None => .. }` on the tracked value itself (the result of a rewritten combinator, a multi-arm `let`)
+                dl = _plain(ct["discr"])
+                vt = None
+                for st in cb["stmts"]:
+                    if st["k"] == "assign" and _is_local(st["lhs"], dl) and st["rv"]["k"] == "discr" and _is_local(st["rv"].get("place")) and st["rv"]["place"]["l"] in aliases:
+                        vt = {nm: int(v) for v, nm in st["rv"].get("variants", [])}
+                if vt and known[2] in vt:
+                    tgt = None
+                    for v, bb in ct["targets"]:
+                        if int(v) == vt[known[2]]:
+                            tgt = bb
+                    if tgt is None and vt[known[2]] not in [int(v) for v, _ in ct["targets"]]:
+                        tgt = ct["otherwise"]
+                    if tgt is not None:
+                        found = (None, cur, tgt)
+                break
             if ct["k"] == "goto":
                 chain.append(cur)
                 cur = ct["t"]
@@ -294,7 +312,7 @@ def thread_try(f, max_chain=14):
         if found is None:
             continue
         J, K, tgt = found
-        seq = chain + [J, K]
+        seq = chain + ([J] if J is not None else []) + [K]
         base = len(blocks)
         for i, bi in enumerate(seq):
             nb = _copy.deepcopy(blocks[bi])
